@@ -79,6 +79,12 @@ fn main() {
                 }
             }
         }
+        // vector flavours: two updaters racing with the removal of an unrelated child (ABA on the children map)
+        if matches!(f, Flavour::CounterVecChild | Flavour::IntCounterVecChild | Flavour::GaugeVecChild | Flavour::IntGaugeVecChild) {
+            for third in [CellOp::RemoveOther, CellOp::Get] {
+                drivers.push(CellDriver { flavour: f, prelude: vec![], programs: instantiate(&[vec![CellOp::Add(1.0)], vec![CellOp::Add(1.0)], vec![CellOp::RemoveOther, third]]) });
+            }
+        }
         if thorough {
             // triples: one thread with 2 operations, two threads with 1
             // (restricted to the first four letters of the alphabet to keep the tier within minutes)
